@@ -194,7 +194,13 @@ def eval_case(case, rec):
                     raise Violation('mocked-task-was-run', dict(info, step=stp))
         base = (tmp / 'helper') if case['own_base_dir'] else Path(helper_tasks[next(iter(helper_tasks))].get_config().base_dir)
         for ms in mocked_slugs:
-            if (base / ms.replace(':', '/')).exists():
+            # a mocked task named like a real task's group (mock `g`, real `g:h:a`) shares the directory `g/`
+            # with that group; only entries that no real task's path accounts for belong to the mock
+            mdir = base / ms.replace(':', '/')
+            depth = len(ms.split(':'))
+            shared = {s_.split(':')[depth] for s_ in helper_tasks
+                      if s_ not in mocked_slugs and s_.split(':')[:depth] == ms.split(':') and len(s_.split(':')) > depth}
+            if mdir.exists() and (not mdir.is_dir() or {e.name for e in mdir.iterdir()} - shared):
                 raise Violation('mocked-task-persisted', dict(info, task=ms))
         # the real chain with source tasks in place of the mocks (a real task cannot return None: skipped then)
         if any('raw' in s_['value'] and s_['value']['raw'] is None for s_ in case['mocks'].values()):
